@@ -1295,7 +1295,7 @@ func (c *fnCtx) inlineTarget(tgt *types.Func, via types.Object, call *ast.CallEx
 	ce := Event{Kind: EvCall, Fn: c.fn, Depth: c.depth + 1, Pos: call.Pos(), Node: call, Callee: tgt, Loop: c.inLoop(call.Pos())}
 	exit := Event{Kind: EvExit, Fn: c.fn, Depth: c.depth, Pos: call.End(), Node: call, Target: tgt, Via: via, ViaCall: call}
 	// method value of an unexported helper of this package (once.Do(s.worker)): look into its body
-	if def := c.e.P.Funcs[tgt]; def != nil && c.e.P.isGlue(tgt) && (def.Pkg == c.fn.Pkg || tgt.Exported()) && !c.e.inl[def] && c.depth < 4 {
+	if def := c.e.P.Funcs[tgt]; def != nil && c.e.P.isGlue(tgt) && (def.Pkg == c.fn.Pkg || tgt.Exported()) && !c.e.inl[def] && c.depth < 6 {
 		var recv ast.Expr
 		for _, a := range call.Args {
 			if se, ok := ast.Unparen(a).(*ast.SelectorExpr); ok && funcValueTarget(c.info, se) == tgt {
@@ -1375,7 +1375,7 @@ func hasFuncParam(def *Func) bool {
 // function arrived as a value bound to a parameter of a looked-into helper).
 func (c *fnCtx) inlineHelperX(callee types.Object, call *ast.CallExpr, anyPkg bool) alts {
 	f, ok := callee.(*types.Func)
-	if !ok || !c.e.P.isGlue(f) || c.depth >= 4 || len(c.paths) > 400 || c.branchy() {
+	if !ok || !c.e.P.isGlue(f) || c.depth >= 6 || len(c.paths) > 400 || c.branchy() {
 		return nil // (path-heavy numeric code is not expanded further)
 	}
 	def := c.e.P.Funcs[f]
